@@ -1,4 +1,5 @@
-// Cluster-level replay monitor (witness finder / fallback; bounded; never proof): three REAL RawNode<MemStorage> voters,
+// Cluster-level replay monitor (witness finder / fallback; bounded; never proof): three REAL RawNode<MemStorage> nodes (all voters at
+// the start; every other case proposes membership changes - remove / re-add / demote to learner - that are applied when committed),
 // synchronous Ready handling (write, then release persisted messages), and a network that may delay, reorder, duplicate
 // or drop messages and partition nodes.  Random schedules of ticks, campaigns, proposals, read requests, deliveries.
 // --prop selects what is reported:
@@ -22,11 +23,11 @@ struct Rng(u64);
 impl Rng { fn next(&mut self) -> u64 { self.0 ^= self.0 << 13; self.0 ^= self.0 >> 7; self.0 ^= self.0 << 17; self.0 } fn below(&mut self, n: u64) -> u64 { if n == 0 { 0 } else { self.next() % n } } }
 
 #[derive(Clone, Debug)]
-enum Op { Tick(u64, u64), Campaign(u64), Propose(u64), Read(u64), Deliver(u64), Drop(u64), Dup(u64), Cut(u64), Heal, DeliverAll, DeliverSide, CutLeader }
+enum Op { Tick(u64, u64), Campaign(u64), Propose(u64), Read(u64), Deliver(u64), Drop(u64), Dup(u64), Cut(u64), Heal, DeliverAll, DeliverSide, CutLeader, Conf(u64, u64, u64) }
 
 struct Node { n: RawNode<MemStorage>, s: MemStorage }
 struct World { nodes: Vec<Node>, net: Vec<Message>, cut: Option<u64>, reads: BTreeMap<Vec<u8>, (u64, u64)>, next_ctx: u64,
-               committed: BTreeMap<u64, (u64, Vec<u8>)>, prop: String, check_quorum: bool }
+               committed: BTreeMap<u64, (u64, Vec<u8>)>, prop: String, check_quorum: bool, before: Vec<(u64, Vec<u64>)> }
 
 macro_rules! guard { ($what:expr, $e:expr) => { match std::panic::catch_unwind(std::panic::AssertUnwindSafe(|| $e)) { Ok(v) => v, Err(_) => return Some(format!("{} panicked", $what)) } } }
 
@@ -36,7 +37,7 @@ impl World {
         let nodes = (1..=3u64).map(|id| { let s = MemStorage::new_with_conf_state((vec![1, 2, 3], vec![]));
             let cfg = Config { id, election_tick: 10, heartbeat_tick: 1, max_size_per_msg: 1 << 20, max_inflight_msgs: 16, pre_vote, check_quorum, ..Default::default() };
             Node { n: RawNode::new(&cfg, s.clone(), &l).unwrap(), s } }).collect();
-        World { nodes, net: vec![], cut: None, reads: BTreeMap::new(), next_ctx: 1, committed: BTreeMap::new(), prop: prop.to_string(), check_quorum }
+        World { nodes, net: vec![], cut: None, reads: BTreeMap::new(), next_ctx: 1, committed: BTreeMap::new(), prop: prop.to_string(), check_quorum, before: vec![(0, vec![1, 2, 3]); 3] }
     }
     fn max_commit(&self) -> u64 { self.nodes.iter().map(|x| x.n.raft.raft_log.committed).max().unwrap() }
     // synchronous Ready loop of node i
@@ -56,6 +57,14 @@ impl World {
             out.extend(light.take_messages());
             ce.extend(light.take_committed_entries());
             for e in ce {
+                if e.get_entry_type() == EntryType::EntryConfChange && !e.data.is_empty() {
+                    // the application applies a committed membership change and stores the resulting ConfState
+                    use protobuf::Message as _;
+                    let mut cc = ConfChange::default();
+                    if cc.merge_from_bytes(e.get_data()).is_ok() {
+                        if let Ok(cs) = guard!("apply_conf_change", self.nodes[i].n.apply_conf_change(&cc)) { self.nodes[i].s.wl().set_conf_state(cs); }
+                    }
+                }
                 // state-machine view: one value per index, ever
                 if let Some((t, d)) = self.committed.get(&e.index) { if (*t, d) != (e.term, &e.data.to_vec()) && self.prop == "C03" { return Some(format!("node {} applies (index {}, term {}) but (index {}, term {}) was applied before", i + 1, e.index, e.term, e.index, t)); } }
                 else { STAT_COMMITS.fetch_add(1, std::sync::atomic::Ordering::Relaxed); self.committed.insert(e.index, (e.term, e.data.to_vec())); }
@@ -107,8 +116,13 @@ impl World {
         }
         if self.prop == "C04" {
             for x in self.nodes.iter() { if x.n.raft.state == StateRole::Leader { let c = x.n.raft.raft_log.committed;
-                let holders = self.nodes.iter().filter(|y| y.s.last_index().unwrap() >= c && y.s.term(c).ok() == x.n.raft.raft_log.term(c).ok()).count();
-                if holders < 2 { return Some(format!("COMMIT RULE: leader {} of term {} has commit index {} but only {} of 3 voters store that entry", x.n.raft.id, x.n.raft.term, c, holders)); } } }
+                let mut voters: Vec<u64> = x.n.raft.prs().conf().voters().ids().iter().collect(); voters.sort();
+                // the rule is about the configuration the entry was committed under: only commits made during this step under an unchanged configuration are judged
+                let before = &self.before[(x.n.raft.id - 1) as usize];
+                if before.1 != voters || c <= before.0 { continue; }
+                if !x.n.raft.prs().conf().to_conf_state().voters_outgoing.is_empty() || voters.is_empty() || x.n.raft.raft_log.term(c).ok() != Some(x.n.raft.term) { continue; }
+                let holders = self.nodes.iter().filter(|y| voters.contains(&y.n.raft.id) && y.s.last_index().unwrap() >= c && y.s.term(c).ok() == x.n.raft.raft_log.term(c).ok()).count();
+                if 2 * holders <= voters.len() { return Some(format!("COMMIT RULE: leader {} of term {} has commit index {} but only {} of its {} voters store that entry", x.n.raft.id, x.n.raft.term, c, holders, voters.len())); } } }
         }
         None
     }
@@ -124,6 +138,9 @@ impl World {
             Op::Deliver(k) => { if self.net.is_empty() { return None; } let k = (*k % self.net.len() as u64) as usize; let m = self.net.remove(k); self.step_msg(m) }
             Op::Drop(k) => { if self.net.is_empty() { return None; } let k = (*k % self.net.len() as u64) as usize; self.net.remove(k); None }
             Op::Dup(k) => { if self.net.is_empty() { return None; } let k = (*k % self.net.len() as u64) as usize; let m = self.net[k].clone(); self.net.push(m); None }
+            Op::Conf(i, kind, target) => { let i = (*i % 3) as usize;
+                let mut cc = ConfChange::default(); cc.set_change_type(match kind % 3 { 0 => ConfChangeType::RemoveNode, 1 => ConfChangeType::AddNode, _ => ConfChangeType::AddLearnerNode }); cc.node_id = 1 + target % 3;
+                let _ = guard!("propose_conf_change", self.nodes[i].n.propose_conf_change(vec![], cc)); self.drive(i) }
             Op::Cut(i) => { self.cut = Some(1 + *i % 3); None }
             Op::Heal => { self.cut = None; None }
             // everything except what is addressed to the partitioned node: those messages stay in flight (delayed)
@@ -137,6 +154,7 @@ fn run(prop: &str, pre_vote: bool, check_quorum: bool, ops: &[Op]) -> Option<Str
     let mut w = World::new(prop, pre_vote, check_quorum);
     let _ = w.check_quorum;
     for (k, op) in ops.iter().enumerate() {
+        w.before = w.nodes.iter().map(|x| { let mut v: Vec<u64> = x.n.raft.prs().conf().voters().ids().iter().collect(); v.sort(); (x.n.raft.raft_log.committed, v) }).collect();
         if let Some(x) = w.apply(op) { if x.ends_with("panicked") && prop != "C20" { STAT_PANICS.fetch_add(1, std::sync::atomic::Ordering::Relaxed); return None; } return Some(format!("op #{} {:?}: {}", k, op, x)); }
         if let Some(x) = w.check() { return Some(format!("after op #{} {:?}: {}", k, op, x)); }
     }
@@ -146,6 +164,8 @@ fn gen(rng: &mut Rng) -> (bool, bool, Vec<Op>) {
     let n = 10 + rng.below(60); let mut ops = vec![Op::Campaign(rng.below(3)), Op::DeliverAll];
     for _ in 0..n { ops.push(match rng.below(24) { 20 | 21 => Op::DeliverSide, 22 => Op::CutLeader, 23 => Op::Campaign(rng.below(3)), 0 | 1 => Op::Tick(rng.below(3), 1 + rng.below(12)), 2 => Op::Campaign(rng.below(3)), 3..=5 => Op::Propose(rng.below(3)), 6..=8 => Op::Read(rng.below(3)),
         9..=13 => Op::Deliver(rng.below(64)), 14 => Op::Drop(rng.below(64)), 15 => Op::Dup(rng.below(64)), 16 => Op::Cut(rng.below(3)), 17 => Op::Heal, _ => Op::DeliverAll }); }
+    // every other case also proposes membership changes (remove / re-add / demote one of the three nodes) on random nodes
+    if rng.below(2) == 0 { let k = 1 + rng.below(4); for _ in 0..k { let at = 2 + rng.below(ops.len() as u64 - 1) as usize; ops.insert(at, Op::Conf(rng.below(3), rng.below(3), rng.below(3))); let at2 = (at + 1 + rng.below(4) as usize).min(ops.len()); ops.insert(at2, Op::DeliverAll); } }
     (rng.below(2) == 0, rng.below(2) == 0, ops)
 }
 fn main() {
